@@ -24,8 +24,8 @@ CLAIMS = {
          "Theorem C04_fields_ordered_disjoint_inside / C04_first_field_at_element_start for every list; element ordering at vector level follows from the Rep invariant (elems_ordered). "
          "Tie: field/element extents, get_fixed_size, iterator.data() vs reference.data_begin().",
          "5 C04"),
- "C05": ("proof (corollary of the C03 invariant) + correspondence",
-         "Theorem C05_fields_tightly_packed: every field at the least aligned address after its predecessor, for every list. Footprint parts (ii)/(iii) are checked by the correspondence and oracle. "
+ "C05": ("proof (tight packing as part of the representation invariant, preserved by every operation: induction over histories) + correspondence",
+         "Theorems C05_fields_tightly_packed (every field at the least aligned address after its predecessor, every list), C05_elements_tightly_packed, C05_fixed_element_size_exact, and at history level C05_represented_states_are_tightly_packed / C05_every_history_tightly_packed: after EVERY valid history (trivially relocatable lists) element i starts exactly at align_for_first_parameter(end of element i-1), element 0 at the start of the block, data_end() is the end of the last element or the aligned address behind it (Rep.r_tight, proved per operation in Refine.v). PARTIAL: footprint clause (iii) across copy/move/assignment is checked by the correspondence and oracle. "
          "Tie: field addresses vs greedy layout, memory_consumption().",
          "5 C05"),
  "C02": ("proof (capacity arithmetic: all-fixed lists exactly, VaryingSize lists with a benign tail by induction over the size computation; Rep bounds) + refutation witness for the remaining lists + correspondence with guard zones",
@@ -58,9 +58,9 @@ CLAIMS = {
          "Theorems C18_*: fresh, emptied and default-constructed vectors have size 0, data_end()=data_begin(), no uninitialised slot is consulted (model reads of unwritten slots would yield -1 offsets and disagree), clear keeps them empty. "
          "Tie: family of default-constructed / zero-capacity / never-filled / emptied-three-ways vectors under alternating junk fills, followed by reserve+emplace_back.",
          "5 C18"),
- "C13": ("proof (operator== of references = equality of the stored tuples, for every list and arbitrary memory, via the structure theorem of the run tables) + correspondence under alternating junk with a content oracle",
-         "Theorem C13_reference_equality_is_content_equality: for every well-formed parameter list, two elements stored in any memories at any aligned positions (any junk, any fixed sizes) compare equal with the library's == (memcmp-able runs byte-wise, other fields object-wise) EXACTLY when they hold the same tuple - proved from RunsThm.runs_structure/runs_tight (a compared run has no padding and at most one span, at its end) and run_bytes_spec (its bytes are the concatenation of its fields). Lifted to references into vectors and to vector == on the element-wise path under Rep; reflexive, symmetric, != negation for arbitrary memory. "
-         "PARTIAL: the whole-buffer fast path (all types memcmp-able, padding-free, equal fixed sizes) is modelled and tied but 'buffers equal iff lists equal' is not proved (Rep does not state gap-free packing). The proof attempt exposed a genuine defect (vectors of zero-byte elements equal whatever their size), fixed. Tie: related vectors under different junk fills / capacities / histories / allocators, all operators on all pairs, content oracle, static RUNS/PADFREE lines, static sweep.",
+ "C13": ("proof (operator== of references and of vectors, on the element-wise AND the whole-buffer path = equality of the stored tuples, for every list, every represented state and arbitrary junk) + correspondence under alternating junk with a content oracle",
+         "Theorem C13_vector_equality_is_content_equality: for every well-formed list and every pair of represented states (after any two valid histories, C01) vector == is equality of the two lists of tuples - element-wise path via C13_reference_equality_is_content_equality (memcmp-able runs byte-wise, other fields object-wise; RunsThm.runs_structure/runs_tight, run_bytes_spec), whole-buffer path via FastEq.v (tight packing is part of Rep: under IS_PADDING_FREE the bytes [data_begin,data_end) are the concatenation of all field bytes, which determines the tuples). Reflexive, symmetric, != negation for arbitrary memory. The first proof attempt exposed a genuine defect (vectors of zero-byte elements equal whatever their size), fixed. "
+         "Tie: related vectors under different junk fills / capacities / histories / allocators, all operators on all pairs, content oracle, static RUNS/PADFREE lines, static sweep.",
          "5 C13"),
  "C14": ("proof (element < is a strict partial order that is a function of the two tuples only; == excludes <; derived operators) + refutation witness (known finding) + correspondence with a law-checking oracle",
          "Theorems C14_*: for every well-formed list the element-level < equals a function of the two stored tuples (C14_reference_less_depends_on_content_only: independent of memory, position, junk, capacity, fixed sizes), is irreflexive, asymmetric and transitive for arbitrary memory, a == b implies neither a < b nor b < a; vector < is irreflexive; > <= >= are derived as stated; field order is a strict weak order. C14_vector_less_transitive_refuted: vm_compute witness that vector < is not transitive (element < is a product order over the compared runs) = known finding less-product-order. "
